@@ -92,6 +92,16 @@ func propC03(c *Ctx, r *Report) {
 	r.Trusted = []string{"SQLite CHECK constraints", "go/ssa"}
 	cat := buildSQLCat(c)
 	tick, max := c.tickers()
+	// applied completely: the per-transaction loop of recordBatch is left only at its end or with an error that fails
+	// the block (shared shape with C06-R10)
+	r.rule("C03-R13/batch-loop-completes", 1, "recordBatch applies every transaction of the batch or fails")
+	ruleLoopCompletes(c, r, "C03-R13/batch-loop-completes", c.fn("node.Pegnetd.recordBatch"), "pegnet.Pegnet.SubFromBalance", "every transaction of an accepted batch is applied")
+	// applied completely, second phase: every deferred PEG request gets a payout entry, the settlement pays and
+	// refunds by walking that map (shared with C16)
+	r.rule("C03-R14/payout-entry-per-request", 1, "every deferred PEG request has an entry in the payout map")
+	rulePayoutEntryPerRequest(c, r, "C03-R14/payout-entry-per-request")
+	r.rule("C03-R15/loopvar-alias", 1, "no address of a per-loop variable is retained across iterations in block processing")
+	ruleLoopVarAlias(c, r, "C03-R15/loopvar-alias", c.RSync)
 
 	// R1
 	r.rule("C03-R1/debit-guard", 2, "the debit statement is guarded by the pending-balance comparison")
